@@ -76,6 +76,9 @@ def gen_market(rnd, ndays=22, warm=3, n_stocks=None, with_future=None, opts=None
                 divs.append((bi, bi + 1, bi + 1 + rnd.randrange(0, 3), round(rnd.uniform(0.5, 5), 2)))   # book, ex, payable idx, cash per 10
             if len(divs) == 2 and not (divs[0][2] < divs[1][0] or divs[1][2] < divs[0][0]) and not opts.get("overlap_div"):
                 divs = divs[:1]     # overlapping record->payable windows are a separate stream (finding F21)
+        if delist_i is not None and opts.get("p_div_over_delist") and rnd.random() < opts["p_div_over_delist"] and delist_i - 2 >= max(warm + 1, listed_i) and kind != "ETF":
+            # a dividend whose record date is passed while the stock still trades and whose payable date lies after the delisting: the receivable outlives the holding
+            divs = [(delist_i - 2, delist_i - 1, min(delist_i + rnd.randrange(1, 3), len(cal) - 1), round(rnd.uniform(0.5, 5), 2))]
         if divs and opts.get("p_special_div") and rnd.random() < opts["p_special_div"]:
             d0 = divs[0]      # a special dividend announced with the regular one: a second row with the same record, ex and payable dates
             divs.insert(1, (d0[0], d0[1], d0[2], round(rnd.uniform(0.5, 3), 2)))
@@ -173,6 +176,14 @@ def gen_market(rnd, ndays=22, warm=3, n_stocks=None, with_future=None, opts=None
                 bars[i] = (d14(dd), o, c, max(o, c), min(o, c), v, v * c * mult, float(round(prev * 1.1)), float(round(prev * 0.9)), st, prev_st, 500.0)
                 prev = c
                 prev_st = st
+            if opts.get("crash") and k == 0:
+                # a collapse in the middle of the run (limit bands ignored by the data, as after a long halt): a leveraged long holder is wiped out at that day's settlement
+                ci = warm + 3
+                for i in list(bars):
+                    if i >= ci:
+                        b = bars[i]
+                        sc_ = lambda x: float(round(x * 0.45))
+                        bars[i] = (b[0], sc_(b[1]), sc_(b[2]), sc_(b[3]), sc_(b[4]), b[5], b[5] * sc_(b[2]) * mult, sc_(b[7]), sc_(b[8]), sc_(b[9]), sc_(b[10]) if i > ci else b[10], b[11])
             exp_date = None if exp_i is None else cal[exp_i]
             if exp_i is not None and exp_i + 1 < len(cal) and (cal[exp_i + 1] - cal[exp_i]).days > 1 and rnd.random() < 0.6:
                 exp_date = cal[exp_i] + datetime.timedelta(days=1)      # a maturity date that is not a trading day (the last bar is the trading day before it)
